@@ -60,7 +60,7 @@ LD = "LayerRuleViolationDetector"
 # modelling device: the layer detector's record extends the module detector's (same two requirement fields), so the base-class contracts apply to it
 REG.class_bases["LayerRuleViolationDetector"] = ["RuleViolationDetector"]
 # layer names in the detector's proofs: an uninterpreted sort (the detector only compares / hashes them; in the string view they are str)
-vals.TYPE_ALIASES["LayerName"] = ("opaque", "LayerName")
+vals.TYPE_ALIASES["LayerName"] = ("str",) if vals.STRING_MODE else ("opaque", "LayerName")   # (the message generator of layer rules is verified in the string view: c_messages.py)
 REG.add(Contract("LayerMapping.get_layer_for_module_name", module=M_EA2, kind="method", status="bounded", pure=True,
                  params=dict(self="Opaque[LayerMapping]", module_name="Node"), returns="Opt[LayerName]",
                  note="in the layer detector's proofs (names uninterpreted) the lookup is ONE uninterpreted function layer_of(mapping, name); what that function is -- the layer "
